@@ -26,9 +26,14 @@ type avlOps struct {
 }
 
 func mkAVL[T comparable](verbatim bool, to func(int) T, from func(T) int, cmp func(a, b T) int) *avlOps {
-	var t [3]avl.Tree[T]
 	n := 0
 	counting := func(a, b T) int { n++; return cmp(a, b) }
+	return mkAVLWith(verbatim, to, from, func() avl.Tree[T] { return avl.New(counting) }, &n)
+}
+
+// mkAVLWith: the trees come from mk (avl.New with a counting comparator, or avl.NewOrdered with the package's own comparator).
+func mkAVLWith[T comparable](verbatim bool, to func(int) T, from func(T) int, mk func() avl.Tree[T], np *int) *avlOps {
+	var t [3]avl.Tree[T]
 	walk := func(f func(func(T))) []int {
 		out := []int{}
 		f(func(v T) { out = append(out, from(v)) })
@@ -42,13 +47,13 @@ func mkAVL[T comparable](verbatim bool, to func(int) T, from func(T) int, cmp fu
 		return out
 	}
 	o := &avlOps{}
-	o.reset = func() { t[0], t[1], t[2] = avl.New(counting), avl.New(counting), avl.New(counting); n = 0 }
+	o.reset = func() { t[0], t[1], t[2] = mk(), mk(), mk(); *np = 0 }
 	o.add = func(w, v int) { t[w].Add(to(v)) }
 	o.remove = func(w, v int) bool { return t[w].Remove(to(v)) }
 	o.contains = func(w, v int) bool { return t[w].Contains(to(v)) }
 	o.clear = func(w int) { t[w].Clear() }
 	o.clone = func(src, dst int) { t[dst] = t[src].Clone() }
-	o.cmps = func() int { c := n; n = 0; return c }
+	o.cmps = func() int { c := *np; *np = 0; return c }
 	o.obs = func(w int, full bool, nv int) M {
 		m := M{"len": t[w].Len(), "pre": []int{}, "ino": []int{}, "post": []int{}, "wpre": []int{}, "wino": []int{}, "wpost": []int{},
 			"has": []bool{}, "str": ""}
@@ -92,6 +97,10 @@ func driveAVL(plan []M, out *Out, _ []string) {
 		})
 	kvOps := mkAVL(false, func(v int) avlKV { return avlKV{v, fmt.Sprint("p", v)} }, func(k avlKV) int { return k.Key },
 		func(a, b avlKV) int { return a.Key - b.Key })
+	// float64 elements v + 0.5 (scaled so that the order is the order of v) through NewOrdered, i.e. typ.Compare
+	zero := 0
+	ordOps := mkAVLWith(false, func(v int) float64 { return float64(v)/4 - 0.125 }, func(f float64) int { return int((f + 0.125) * 4) },
+		func() avl.Tree[float64] { return avl.NewOrdered[float64]() }, &zero)
 	ops := intOps
 	nv := 0
 	live := [3]bool{true, false, false}
@@ -116,6 +125,8 @@ func driveAVL(plan []M, out *Out, _ []string) {
 				ops = strOps
 			case "struct":
 				ops = kvOps
+			case "ordered":
+				ops = ordOps
 			default:
 				ops = intOps
 			}
